@@ -63,7 +63,8 @@ def rule_filed_by_path(ctx, rid="R17.2"):
     sem = tree_eval(prog)
     if sem is not None:
         # decided on a tree built from five of the package's own error objects inside the definitional interpreter
-        for clause, key in (("filing", "walk-start"), ("instance-record", "instance-record"), ("raises", "walk-start")):
+        for clause, key in (("filing", "walk-start"), ("instance-record", "instance-record"), ("order", "walk-start"), ("errors-untouched", "touches-errors"),
+                            ("raises", "walk-start")):
             if clause not in sem:
                 continue
             if sem[clause] is None:
